@@ -25,12 +25,33 @@ def _cases(ctx):
     for _ in range(n):
         ln = rng.choice([0, 1, 3, 8, 40, 300, 2000])
         cases.append(bytes(rng.randrange(256) for _ in range(ln)))
+    # long strings (whole carts of code are converted in one call): multi-code-point glyphs at and around every power-of-two offset
+    # of the Unicode text, and dense random glyph text
+    multi = [b for b in range(256)]
+    for k in range(ctx.budget(4, 40)):
+        ln = rng.choice([0x8000, 0xffff, 0x10000, 0x10001, 0x12000, 0x20003])
+        body = bytearray(rng.choice(b'abc \n=') for _ in range(ln))
+        for off in (0x0fff, 0x1000, 0x3fff, 0x7fff, 0x8000, 0xfffe, 0xffff, 0x10000, 0x1ffff, 0x20000):
+            for d in (-2, -1, 0, 1):
+                if 0 <= off + d < ln:
+                    body[off + d] = rng.choice([0x83, 0x8b, 0x8e, 0x91, 0x94, 0x97, rng.randrange(0x80, 0x100), rng.randrange(0x10, 0x20)])
+        cases.append(bytes(body))
+        cases.append(bytes(rng.randrange(0x80, 0x100) for _ in range(0x9000)))
+    # one run of two-code-point glyphs straddling each power-of-two offset of the TEXT, in both alignments (the rest is ASCII, so byte
+    # offsets before the run are text offsets)
+    two_cp = [b for b in range(256) if len(_impl().p8scii_to_unicode(bytes([b]))) >= 2] or [0x83]
+    for B in (0x1000, 0x8000, 0x10000, 0x20000):
+        for par in (0, 1):
+            body = bytearray(b'a' * (B + 64))
+            for j in range(6):
+                body[B - 5 - par + j] = rng.choice(two_cp)
+            cases.append(bytes(body))
     return cases
 
 
 def run(ctx, res):
     lua = _impl()
-    res.rule = ('all 256 single bytes, all 65536 byte pairs, seeded random strings (len 0..2000) through '
+    res.rule = ('all 256 single bytes, all 65536 byte pairs, seeded random strings (len 0..2000) and long texts (32k-128k bytes, multi-code-point glyphs around power-of-two offsets) through '
                 'p8scii_to_unicode/unicode_to_p8scii and the Lean model; malformed Unicode stream (unknown code points, '
                 'truncated multi-code-point spellings); every byte value in comment lines of a cart written to .p8 and read back; distinct = distinct byte strings / texts; non-trivial = non-empty')
     cases = _cases(ctx)
@@ -66,6 +87,7 @@ def run(ctx, res):
     res.count('single', 256)
     res.count('pairs', 65536)
     res.count('random', len(cases) - 65792)
+    res.count('long(>=32768 bytes)', sum(1 for c in cases if len(c) >= 0x8000))
     res.sample({'bytes': hx(cases[300]), 'unicode': lua.p8scii_to_unicode(cases[300]) if len(lua.P8SCII_CHARSET) >= 256 else None})
     res.sample({'bytes': hx(cases[-1][:24])})
     # table-level clauses of the property
